@@ -30,6 +30,7 @@ H0 == [cfg |-> [cap |-> FALSE, maxIdle |-> 0, idleTimeout |-> 0], uris |-> <<>>,
        inflight |-> <<>>,    \* [request -> an HTTP/2 attempt for its origin was in flight when it was issued]
        openH2 |-> <<>>,      \* [request -> an open HTTP/2 connection for its origin was pooled (or reserved) when it was issued]
        reserved |-> <<>>,    \* [request -> connection taken from the idle list at Issue, 0 if none]
+       expAt |-> <<>>,       \* [request -> idle connections that had provably expired when it was issued]
        dialed |-> <<>>,      \* [request -> it has started its own dial]
        att |-> {},           \* requests whose own HTTP/2 attempt is in flight (the "owners")
        closedAt |-> <<>>,    \* [connection -> index of its PeerClose record, 0 if open]
@@ -61,6 +62,18 @@ IdleSet(hh, o, a) == UNION {{o.idle[b][i] : i \in 1..Len(o.idle[b])} : b \in {b 
 UsableIdle(hh, o, a) == \E c \in IdleSet(hh, o, a) : IsUsable(o, c)
 \* reuse is only asserted when expiry cannot interfere (no timeout, zero = disabled, or a large timeout)
 ReuseAsserted(hh) == hh.cfg.idleTimeout # 2
+\* Under the small timeout (40 ms of std::time::Instant) freshness and expiry are judged at Issue events from
+\* the measured real age bracket [min, max] ms of the connection's last hand-back (one-sided on both sides);
+\* traces without measured ages (the model's own behaviours) use the tick counter instead.
+SmallMs == 40
+FreshAt(hh, pre, e, c) ==
+  IF hh.cfg.idleTimeout # 2 THEN TRUE
+  ELSE IF c \in 1..Len(e.ages) THEN e.ages[c][2] < SmallMs
+  ELSE Get(hh.backAt, c, 0) # 0 /\ Get(hh.tickAtBack, c, 0) = pre.ticks
+ExpiredAt(hh, pre, e, c) ==
+  /\ hh.cfg.idleTimeout = 2 /\ Get(hh.backAt, c, 0) # 0
+  /\ IF c \in 1..Len(e.ages) THEN e.ages[c][1] > SmallMs /\ e.ages[c][2] < 1000000
+     ELSE pre.ticks > Get(hh.tickAtBack, c, 0)
 
 Holders(o, c) == {r \in 1..NReqO(o) : o.req[r].held = c}
 InCheckout(o, r) == r \in 1..NReqO(o) /\ o.req[r].st = "checkout"
@@ -123,7 +136,7 @@ C05(hh, pre, e, post) ==
        IN (IF ca # 0 /\ ca < ia THEN <<V("C05:closed-before-issue", e.r, e.c)>> ELSE <<>>)
           \o (IF ca # 0 /\ ba # 0 /\ ca < ba THEN <<V("C05:closed-before-hand-back", e.r, e.c)>> ELSE <<>>)
           \o (IF /\ hh.cfg.idleTimeout = 2 /\ ~post.conn[e.c].h2 /\ ba # 0 /\ ba < ia
-                 /\ Get(hh.tickAtIssue, e.r, 0) > Get(hh.tickAtBack, e.c, 0)
+                 /\ e.c \in Get(hh.expAt, e.r, {})
               THEN <<V("C05:expired", e.r, e.c)>> ELSE <<>>)
   ELSE <<>>
 
@@ -162,7 +175,8 @@ AttSameOrigin(hh, post, a) == \E q \in hh.att : q \in 1..NReqO(post) /\ SameOrig
 
 Upd(hh, pre, e, post) ==
   CASE e.e = "Issue" ->
-         LET usable == UsableIdle(hh, pre, e.o)
+         LET usable == \E c \in IdleSet(hh, pre, e.o) : IsUsable(pre, c) /\ FreshAt(hh, pre, e, c)
+             usableAny == UsableIdle(hh, pre, e.o)     \* ignoring expiry: the request may have been given one of these
              infl == AttSameOrigin(hh, post, e.o)
              taken == {c \in IdleSet(hh, pre, e.o) : c \notin IdleSet(hh, post, e.o)}
              res == IF taken = {} THEN 0 ELSE CHOOSE c \in taken : TRUE
@@ -172,11 +186,12 @@ Upd(hh, pre, e, post) ==
                                               /\ (c \in IdleSet(hh, pre, e.o) \/ c \in resvd)
          IN [hh EXCEPT !.issueAt = Put(@, e.r, l + 1, 0),
                        !.tickAtIssue = Put(@, e.r, pre.ticks, 0),
-                       !.hadIdle = Put(@, e.r, usable /\ ReuseAsserted(hh), FALSE),
-                       !.inflight = Put(@, e.r, infl /\ ~usable, FALSE),
+                       !.hadIdle = Put(@, e.r, usable, FALSE),
+                       !.expAt = Put(@, e.r, {c \in IdleSet(hh, pre, e.o) : ~pre.conn[c].h2 /\ ExpiredAt(hh, pre, e, c)}, {}),
+                       !.inflight = Put(@, e.r, infl /\ ~usableAny, FALSE),
                        !.openH2 = Put(@, e.r, oh2 /\ ReuseAsserted(hh), FALSE),
                        !.reserved = Put(@, e.r, res, 0),
-                       !.att = IF e.h2 /\ ~usable /\ ~infl /\ e.res # "Panicked" THEN @ \cup {e.r} ELSE @]
+                       !.att = IF e.h2 /\ ~usableAny /\ ~infl /\ e.res # "Panicked" THEN @ \cup {e.r} ELSE @]
     [] e.e = "Poll" ->
          LET ownDial == {d \in 1..NConnO(pre) : pre.conn[d].by = e.r /\ d # e.c /\ pre.conn[d].dial \in {"connecting", "handshaking"}}
              \* pre-empted: served by a connection that is not its own dial while its own attempt is unfinished
